@@ -459,7 +459,8 @@ def _colr0_layers(color_glyph: ColorGlyph, root: Paint, palette: Sequence[Color]
     # Results for complex structures will be suboptimal :)
     ufo = color_glyph.ufo
     layers = []
-    for context in root.breadth_first():
+    # depth first so layers come out in paint order whatever the nesting
+    for context in root.depth_first():
         if context.paint.format != PaintGlyph.format:  # pytype: disable=attribute-error
             continue
         paint_glyph: PaintGlyph = (
